@@ -3,13 +3,16 @@
 /repo (one at a time, reverted afterwards), run the quick tier of the property's
 own check and - when that stays quiet - the checks its meta.json records as the
 ones that caught it.  Writes seeded/REGRESS.json (which check catches which
-change on the current tree).  /repo must be clean; nothing is committed there."""
+change on the current tree).  The repository worked on is $VERIF_REPO (default
+/repo; use a scratch worktree pair to run this beside other work); it must be
+clean; nothing is committed there."""
 import sys, os, json, subprocess, glob, re, time
 V = os.path.dirname(os.path.dirname(os.path.abspath(__file__)))
+R = os.environ.get("VERIF_REPO", "/repo")
 def sh(cmd, timeout=3600):
     p = subprocess.run(cmd, shell=True, stdout=subprocess.PIPE, stderr=subprocess.STDOUT, timeout=timeout)
     return p.returncode, p.stdout.decode("utf-8", "replace")
-assert sh("git -C /repo status --porcelain --untracked-files=no")[1].strip() == "", "/repo not clean"
+assert sh("git -C %s status --porcelain --untracked-files=no" % R)[1].strip() == "", R + " not clean"
 want = sys.argv[1:]
 res = {}
 out = os.path.join(V, "seeded", "REGRESS.json")
@@ -22,14 +25,14 @@ for d in sorted(glob.glob(os.path.join(V, "seeded", "C*"))):
     patch = os.path.join(d, "patch.diff")
     if not os.path.exists(patch): continue
     meta = json.load(open(os.path.join(d, "meta.json")))
-    rc, o = sh("git -C /repo apply %s" % patch)
+    rc, o = sh("git -C %s apply %s" % (R, patch))
     how = "git apply"
     if rc != 0:
-        sh("git -C /repo checkout -- .")
-        rc, o = sh("cd /repo && patch -p1 --fuzz=3 --no-backup-if-mismatch < %s" % patch)
+        sh("git -C %s checkout -- ." % R)
+        rc, o = sh("cd %s && patch -p1 --fuzz=3 --no-backup-if-mismatch < %s" % (R, patch))
         how = "patch --fuzz=3"
         if rc != 0:
-            sh("git -C /repo checkout -- . && git -C /repo clean -fdq -e _build")
+            sh("git -C %s checkout -- . && git -C %s clean -fdq -e _build" % (R, R))
             res[sid] = {"applies": False}
             print(sid, "does not apply any more", flush=True)
             continue
@@ -49,7 +52,7 @@ for d in sorted(glob.glob(os.path.join(V, "seeded", "C*"))):
             if rc == 1 and vl:
                 caught = "%s/%s" % (cid, tier); break
     finally:
-        sh("git -C /repo checkout -- . && git -C /repo clean -fdq -e _build")
+        sh("git -C %s checkout -- . && git -C %s clean -fdq -e _build" % (R, R))
     r["caught_by"] = caught
     res[sid] = r
     print(sid, how, caught, r["checks"], flush=True)
